@@ -309,6 +309,33 @@ func findFilterRemovals(c *Ctx, fn *ssa.Function) []filterRemoval {
 
 // descendingLoop: l is `for i := len(x)-1; 0 <= i; i--` with induction phi i.
 func descendingLoop(l *loopInfo, idx ssa.Value) (bool, string) {
+	// the other spelling of the same walk: i := len(s); for 0 < i { i--; .. s[i] .. } - the index is the
+	// variable's next value, computed first thing in the body; the variable starts at len and the loop runs
+	// while it is above 0, so the index runs from len-1 down to 0 by one
+	if bo, isB := idx.(*ssa.BinOp); isB && bo.Op == token.SUB {
+		if k, isC := bo.Y.(*ssa.Const); isC && k.Value != nil && k.Int64() == 1 {
+			if p, isP := bo.X.(*ssa.Phi); isP && p.Block() == l.head && len(l.head.Succs) == 2 && bo.Block() == l.head.Succs[0] {
+				for i, e := range p.Edges {
+					if l.body[l.head.Preds[i]] {
+						if e != ssa.Value(bo) {
+							return false, "the index does not decrease by one per iteration"
+						}
+					} else if _, isLen := isLenOf(e); !isLen {
+						return false, "the index does not start at len-1"
+					}
+				}
+				ifi, ok := l.head.Instrs[len(l.head.Instrs)-1].(*ssa.If)
+				if !ok {
+					return false, "no loop test"
+				}
+				v, op, k, ok := intCmp(ifi.Cond)
+				if !ok || v != ssa.Value(p) || !((op == token.GTR && k == 0) || (op == token.GEQ && k == 1)) {
+					return false, "the loop does not run down to index 0"
+				}
+				return true, ""
+			}
+		}
+	}
 	p, ok := idx.(*ssa.Phi)
 	if !ok || p.Block() != l.head {
 		return false, "the removal index is not the induction variable of the enclosing loop"
@@ -989,8 +1016,8 @@ func checkC20(c *Ctx, r *Report) {
 				for _, g := range blockGuards(ci.Block()) {
 					g = normGuard(g)
 					bo, ok := g.cond.(*ssa.BinOp)
-					if !ok || bo.Op != token.EQL || !g.val {
-						continue
+					if !ok || !((bo.Op == token.EQL && g.val) || (bo.Op == token.NEQ && !g.val)) {
+						continue // "if elem != s { continue }" says the same as "if elem == s {"
 					}
 					if (sameVal(bo.X, base) && regElem(bo.Y)) || (sameVal(bo.Y, base) && regElem(bo.X)) {
 						found = true
